@@ -70,8 +70,21 @@ class U(P):
 class S(P):
     """inherits the methods"""
 
+class Z(P):
+    """an instance that is false"""
+    def __bool__(self):
+        return False
+
+class L(P):
+    """an empty container"""
+    def __len__(self):
+        return 0
+
 class Holder:
     pass
+
+def caller(o, x):
+    return o.meth(x)
 
 def meth(x):
     v = x + 1000
@@ -266,6 +279,31 @@ def run(chk):
             else:
                 chk.violation("oracle", "selector %r fired %d times for 2 calls on the probed receiver and 2 on another" % (
                     sel, len(evs)), {"selector": sel, "events": treegen.snap_json(list(evs))})
+    # the object selector below another function in the call path, and receivers that are false / empty
+    for cls in (mod.P, mod.E, mod.Z, mod.L):
+        pop = [cls(1), cls(1), cls(2)]
+        env = dict(mod.__dict__)
+        env.update({"o%d" % i: o for i, o in enumerate(pop)})
+        for sel, run_calls, want in (
+                ("caller > o1.meth > v", lambda: [mod.caller(pop[0], 5), mod.caller(pop[1], 6), mod.caller(pop[2], 7), pop[1].meth(8)], [7]),
+                ("o1.meth > v", lambda: [pop[0].meth(5), pop[1].meth(6), pop[2].meth(7)], [7]),
+                ("caller(x) > o2.meth > v", lambda: [mod.caller(pop[2], 1), mod.caller(pop[0], 1)], [3])):
+            try:
+                with ptera.probing(sel, env=env) as pr:
+                    evs = pr.accum()
+                    run_calls()
+                got = [e.get("v") for e in evs]
+                recv = [e.get("self") for e in evs]
+            except Exception as e:
+                got, recv = "%s: %s" % (type(e).__name__, e), []
+            probed = pop[int(sel.split(".meth")[0][-1])]
+            chk.count(("position/falsy", cls.__name__, sel), nontrivial=True)
+            chk.dist("object selector: " + ("inside a call path" if sel.startswith("caller") else "falsy receiver" if cls in (mod.Z, mod.L) else "plain"))
+            if got != want or any(r is not probed for r in recv):
+                chk.violation("oracle", "%s with instances of %s: observed v = %r (receivers reported: %d, all the probed "
+                              "object: %s), expected %r from the probed receiver only" % (
+                                  sel, cls.__name__, got, len(recv), all(r is probed for r in recv), want),
+                              {"selector": sel, "class": cls.__name__})
     # two object selectors in one call path: each level has its own receiver
     pop = [mod.P(1), mod.P(2), mod.P(3)]
     env = dict(mod.__dict__)
